@@ -667,12 +667,17 @@ def numeric(e, env: dict, model: Model | None = None, prec=50):
             return mp.pi
         if k == "var":
             n = e[1]
-            if n in env:
-                return val(env[n])
-            if n in TIME_NAMES and "t" in env and not (model and n in model.assigns):
-                return val(env["t"])
+            # a name the model defines is that model quantity, even if it is called t / time
             if model is not None and n in model.assigns:
                 return ev(model.assigns[n])
+            declared = model is not None and (n in model.states or n in model.params)
+            if n in TIME_NAMES and not declared:
+                if "__time__" in env:
+                    return val(env["__time__"])
+                if "t" in env:
+                    return val(env["t"])
+            if n in env:
+                return val(env[n])
             raise RefError(f"undefined {n}")
         if k == "neg":
             return -num(ev(e[1]))
